@@ -5,6 +5,7 @@ import Driver.Policy
 import Driver.Handlers
 import Driver.Version
 import Driver.Validate
+import Driver.KeyedLock
 
 def main (args : List String) : IO UInt32 := do
   let stdin ← IO.getStdin
@@ -15,4 +16,5 @@ def main (args : List String) : IO UInt32 := do
   | ["handlers"] => Drv.loop stdin Drv.Handlers.step (); return 0
   | ["version"] => Drv.loop stdin Drv.Version.step (); return 0
   | ["validate"] => Drv.loop stdin Drv.Validate.step (); return 0
+  | ["keyedlock"] => Drv.loop stdin Drv.KeyedLock.step {}; return 0
   | _ => IO.eprintln "usage: wfdriver <model>"; return 2
